@@ -362,6 +362,7 @@ ANCHORS = {
 for _p, _anchors in ANCHORS.items():
     for _f, _q in _anchors:
         CORPUS[_p].append(E(f"locals of {_q} renamed (AST transform, whole file re-emitted by ast.unparse)", (_f, "@rename_locals", _q)))
+        CORPUS[_p].append(E(f"operands of every product in {_q} swapped (AST transform)", (_f, "@commute_mult", _q)))
     _files = sorted({f for f, _ in _anchors})
     CORPUS[_p].append(E("anchor files round-tripped through ast.unparse (comments dropped, all line numbers moved)",
                         *[(f, "@reformat", "") for f in _files]))
